@@ -4,6 +4,7 @@ pub mod dec;
 pub mod enc;
 pub mod evo;
 pub mod spec;
+pub mod tamper;
 pub mod timeval;
 pub mod ty;
 pub mod values;
